@@ -88,16 +88,31 @@ def check(run):
         stats[key] = st
         total += st["instantiations"]
         equal += st["equal"]
-    # x86/x64: report of the disassembly sweep when the module is present
-    try:
-        import x64sweep
-        rep = x64sweep.run(limit=None if thorough else 4000)
-        stats["x64"] = rep.get("counts", rep)
-        for s in rep.get("suspects", []):
-            run.violation("failing-input", {"kind": "x64-decodes-differently", "line": s.get("line")}, f"x64: `{s.get('line')}` assembles to {s.get('bytes')}, which llvm-mc reads as `{s.get('llvm')}`: {s.get('why')}",
-                          {"stream": "plug", "input": ["cl ; .arch x64 ; " + str(s.get("line"))], "record": s})
-    except ImportError:
-        run.assumptions.append("x86/x64 non-memory operands: the disassembly sweep (lib/x64sweep.py) is not present in this tree; memory operands are C13")
+    # x86/x64: every table entry instantiated (every register of the class in every slot, fixed memory shapes, boundary immediates),
+    # compiled by the plugin, the bytes DISASSEMBLED by llvm-mc and compared operand by operand (lib/x64sweep.py)
+    import x64sweep
+    rep = x64sweep.run(limit=None)
+    c = rep["counts"]
+    stats["x64"] = {k: c[k] for k in ("entries", "instantiations", "accepted", "decoded", "fully_equal", "mnemonic_alias_equal", "undecodable", "entries_never_taken") if k in c}
+    stats["x64"]["undecodable_per_feature"] = rep.get("undecodable_per_feature")
+    total += c.get("instantiations", 0)
+    equal += c.get("fully_equal", 0) + c.get("mnemonic_alias_equal", 0)
+    for s in rep.get("suspects", []):
+        if not s.get("instantiations"):
+            continue
+        ev = (s.get("evidence") or [{}])[0]
+        run.violation("failing-input", {"kind": "x64-encoding", "group": s["id"]},
+                      f"x64 table: {s['title']} ({s['instantiations']} instantiations over {len(s['entries'])} entries, e.g. `.arch {ev.get('mode')}; {ev.get('line')}` assembles to {ev.get('bytes')}, "
+                      f"which llvm-mc reads as `{ev.get('llvm')}`): {s['why']}",
+                      {"stream": "plug", "input": [f"cl ; .arch {ev.get('mode')} ; {ev.get('line')}"], "record": {k: s.get(k) for k in ("id", "title", "severity", "entries", "why", "right", "evidence")}})
+    for u in rep.get("unexplained", [])[:5]:
+        ex = u.get("example", {})
+        run.violation("failing-input", {"kind": "x64-decodes-differently", "entry": ex.get("entry"), "kinds": u.get("kinds")},
+                      f"x64: `.arch {ex.get('mode')}; {ex.get('line')}` assembles to {ex.get('bytes')}, which llvm-mc reads as `{ex.get('llvm')}` ({ex.get('diff')})",
+                      {"stream": "plug", "input": [f"cl ; .arch {ex.get('mode')} ; {ex.get('line')}"], "record": u})
+    if rep.get("matcher_model_disagreements"):
+        run.violation("broken-correspondence", {"kind": "x64-matcher-model"}, f"lib/x64sweep.py's transcription of match_format_string disagrees with the plugin on {len(rep['matcher_model_disagreements'])} lines",
+                      {"record": rep["matcher_model_disagreements"][:5]}, found_input=False)
     run.coverage["evaluations"] = total
     run.coverage["distinct_nontrivial"] = equal
     run.coverage["rule"] = ("every form of the aarch64 / riscv32 / riscv64 tables x {base, last, spread} and every slot over its whole domain (boundary-directed above "
